@@ -13,9 +13,17 @@ on every field, the `view` rejects duplicate names) followed by the dict compreh
 Specification: a plain dictionary `name → (per-layer dataIds, calId)` with append / filter /
 key substitution.
 
-`dataId`, `calId`, `cfg` are opaque identities: the harness fills every array with a unique constant
+`dataId`, `calId`, `cfg` are opaque *content tokens*: the harness fills every array with a unique constant
 and gives every calibration a unique gradient, so that they are observable on the real objects.
 `calId = 0` is the default `Calibration()`.
+
+Three levels, each tied to the next by a theorem (`PewTheorems/C07.lean`):
+
+* the **object level** (`World`, `hstep`, second half of this file): memory cells, Calibration / Config / dict
+  objects with identities, who holds a reference to what, what a call allocates, copies, aliases or writes;
+* the **content level** (`State`, `stepE` / `step`): what is stored under which name, including the exception a
+  failing call raises and the (possibly half-edited) state it leaves behind; `view : World → State`;
+* the **dictionary** (`Spec`): the plain map of the property; `abs : State → Spec`.
 -/
 namespace Pew.LaserEdit
 
@@ -124,12 +132,20 @@ def roundTrip (s : State) : Option State :=
 
 /-! ## operations -/
 
-/-- one layer of `add`: `np.empty(shape, dtype.descr + [(element, ..)])` raises on a duplicate name -/
-def Layer.add (l : Layer) (n : Name) (d : Nat) : Option Layer :=
-  if n ∈ keys l.fields then none else some { l with fields := l.fields ++ [(n, d)] }
+/-- an array handed to `add`: its shape and its content -/
+abbrev ArrIn := List Nat × Nat
+
+/-- one layer of `add`: `assert data.shape == self.data.shape`, then
+`np.empty(self.data.shape, dtype.descr + [(element, ..)])` raises on a duplicate name; the new array has
+the shape of the old one and `new_data[element] = data` stores the given array in full (without the
+assert a smaller array would be broadcast into it) -/
+def Layer.add (l : Layer) (n : Name) (a : ArrIn) : Option Layer :=
+  if a.1 ≠ l.shape then none
+  else if n ∈ keys l.fields then none
+  else some { shape := l.shape, fields := l.fields ++ [(n, a.2)] }
 
 /-- the loop over layers; `assert len(data) == len(self.data)` -/
-def addLayers (n : Name) : List Layer → List Nat → Option (List Layer)
+def addLayers (n : Name) : List Layer → List ArrIn → Option (List Layer)
   | [], [] => some []
   | l :: ls, d :: ds =>
     match l.add n d, addLayers n ls ds with
@@ -137,14 +153,15 @@ def addLayers (n : Name) : List Layer → List Nat → Option (List Layer)
     | _, _ => none
   | _, _ => none
 
-def add (s : State) (n : Name) (ds : List Nat) (c : Nat) : Option State :=
+def add (s : State) (n : Name) (ds : List ArrIn) (c : Nat) : Option State :=
   match addLayers n s.layers ds with
   | none => none
   | some ls => some { s with layers := ls, cal := dictSet s.cal n c }
 
-/-- `rfn.drop_fields(data, names, usemask=False)`: absent names are ignored -/
+/-- `rfn.drop_fields(data, names, usemask=False)`: absent names are ignored; the result is
+`np.empty(base.shape, newdtype)` filled field by field, so it has the shape of the old array -/
 def Layer.drop (l : Layer) (ns : List Name) : Layer :=
-  { l with fields := l.fields.filter (fun e => decide (e.1 ∉ ns)) }
+  { shape := l.shape, fields := l.fields.filter (fun e => decide (e.1 ∉ ns)) }
 
 def remove (s : State) (ns : List Name) : Option State :=
   match popAll s.cal ns with
@@ -155,7 +172,7 @@ def remove (s : State) (ns : List Name) : Option State :=
 once; `base.view(newdtype)` raises `ValueError` when two fields get the same name -/
 def Layer.rename (l : Layer) (m : NameMap) : Option Layer :=
   let f := l.fields.map (fun e => (sub m e.1, e.2))
-  if (keys f).Nodup then some { l with fields := f } else none
+  if (keys f).Nodup then some { shape := l.shape, fields := f } else none
 
 def renameLayers (m : NameMap) : List Layer → Option (List Layer)
   | [] => some []
@@ -202,12 +219,14 @@ def read (s : State) (layer : Nat) (t : Option Name) (calibrate : Bool) : Option
   | some l => readLayer s.cal l t calibrate
 
 inductive Op
-  | add (n : Name) (ds : List Nat) (c : Nat)
+  | add (n : Name) (ds : List ArrIn) (c : Nat)
   | remove (ns : List Name)
   | rename (m : NameMap)
   | get (layer : Nat) (t : Option Name) (calibrate : Bool)
   /-- the caller edits the calibration dict / calibration objects / config object it passed to the
-  constructor: the state holds copies, so nothing happens -/
+  constructor.  At this level nothing is stored that such an edit could reach; that this is what the
+  code does (the constructor copies) is a theorem about the object level (`foreign_edit_invisible`,
+  `history_view`). -/
   | callerEdit
   deriving Repr, DecidableEq
 
@@ -225,6 +244,153 @@ def run (s : State) : List Op → Option State
     | none => none
     | some s' => run s' ops
 
+/-! ## the same calls with their exceptions
+
+`step` above says *whether* a call succeeds.  The functions below say which exception a failing call
+raises and which state it leaves behind: the loops of the code stop where the exception is raised, what
+they did before stays done.  `stepE_ok_iff` (PewTheorems) ties the two. -/
+
+/-- the exception classes the anchored code can raise on these calls -/
+inductive Err
+  /-- `AssertionError`: `assert data.shape == self.data.shape`, `assert len(data) == len(self.data)` -/
+  | assertion
+  /-- `ValueError`: NumPy refuses a structured dtype with a repeated field name; `data[element]` of an absent field -/
+  | value
+  /-- `KeyError`: `calibration.pop(name)` / `calibration[name]` of an absent key -/
+  | key
+  /-- `IndexError`: `self.data[layer]` of an absent layer -/
+  | index
+  deriving Repr, DecidableEq
+
+/-- how a call ends: normally, or with an exception — in both cases with the state it leaves -/
+inductive Res (σ : Type)
+  | ok (s : σ)
+  | fail (e : Err) (s : σ)
+  deriving Repr, DecidableEq
+
+def Res.state {σ : Type} : Res σ → σ
+  | .ok s => s
+  | .fail _ s => s
+
+def Res.err {σ : Type} : Res σ → Option Err
+  | .ok _ => none
+  | .fail e _ => some e
+
+def Res.toOption {σ : Type} : Res σ → Option σ
+  | .ok s => some s
+  | .fail _ _ => none
+
+def Res.map {σ τ : Type} (f : σ → τ) : Res σ → Res τ
+  | .ok s => .ok (f s)
+  | .fail e s => .fail e (f s)
+
+/-- one layer of `add`: the shape assert comes first, then `np.empty` rejects the repeated name -/
+def Layer.addE (l : Layer) (n : Name) (a : ArrIn) : Except Err Layer :=
+  if a.1 ≠ l.shape then .error .assertion
+  else if n ∈ keys l.fields then .error .value
+  else .ok { shape := l.shape, fields := l.fields ++ [(n, a.2)] }
+
+/-- `for i in range(len(self.data)): … self.data[i] = new_data` (`SRRLaser.add`; one round for `Laser.add`,
+which assigns `self.data` last): the layers before the failing one have already been replaced -/
+def addLayersE (n : Name) : List Layer → List ArrIn → Except (Err × List Layer) (List Layer)
+  | [], _ => .ok []
+  | l :: ls, [] => .error (.index, l :: ls)     -- not reached: the lengths are asserted equal first
+  | l :: ls, a :: as =>
+    match l.addE n a with
+    | .error e => .error (e, l :: ls)
+    | .ok l' =>
+      match addLayersE n ls as with
+      | .ok r => .ok (l' :: r)
+      | .error (e, r) => .error (e, l' :: r)
+
+def addE (s : State) (n : Name) (ds : List ArrIn) (c : Nat) : Res State :=
+  if ds.length ≠ s.layers.length then .fail .assertion s
+  else
+    match addLayersE n s.layers ds with
+    | .ok ls => .ok { s with layers := ls, cal := dictSet s.cal n c }
+    | .error (e, ls) => .fail e { s with layers := ls }
+
+/-- `for name in names: self.calibration.pop(name)`: stops at the first absent key, the earlier pops stay -/
+def popAllE (d : Dict) : List Name → Dict × Option Err
+  | [] => (d, none)
+  | n :: ns =>
+    match dictPop d n with
+    | none => (d, some .key)
+    | some d' => popAllE d' ns
+
+/-- `remove`: the fields are dropped from every layer first (absent names are ignored there), then the
+calibrations are popped one by one -/
+def removeE (s : State) (ns : List Name) : Res State :=
+  let ls := s.layers.map (·.drop ns)
+  match popAllE s.cal ns with
+  | (d, none) => .ok { s with layers := ls, cal := d }
+  | (d, some e) => .fail e { s with layers := ls, cal := d }
+
+/-- `for i in range(len(self.data)): self.data[i] = rfn.rename_fields(self.data[i], names)` -/
+def renameLayersE (m : NameMap) : List Layer → Except (Err × List Layer) (List Layer)
+  | [] => .ok []
+  | l :: ls =>
+    match l.rename m with
+    | none => .error (.value, l :: ls)
+    | some l' =>
+      match renameLayersE m ls with
+      | .ok r => .ok (l' :: r)
+      | .error (e, r) => .error (e, l' :: r)
+
+def renameE (s : State) (m : NameMap) : Res State :=
+  match renameLayersE m s.layers with
+  | .ok ls => .ok { s with layers := ls, cal := rebuildDict s.cal m }
+  | .error (e, ls) => .fail e { s with layers := ls }
+
+/-- `for name in data.dtype.names: data[name] = self.calibration[name].calibrate(data[name])` -/
+def calibrateAllE (cal : Dict) : Fields → Except Err ReadOut
+  | [] => .ok []
+  | e :: r =>
+    match get? cal e.1 with
+    | none => .error .key
+    | some c =>
+      match calibrateAllE cal r with
+      | .ok out => .ok ((e.1, e.2, some c) :: out)
+      | .error x => .error x
+
+def readLayerE (cal : Dict) (l : Layer) (t : Option Name) (calibrate : Bool) : Except Err ReadOut :=
+  match t with
+  | some n =>
+    match get? l.fields n with
+    | none => .error .value                      -- `data[element]`: no field of that name
+    | some d =>
+      if calibrate then
+        match get? cal n with
+        | none => .error .key                    -- `self.calibration[element]`
+        | some c => .ok [(n, d, some c)]
+      else .ok [(n, d, none)]
+  | none =>
+    if calibrate then calibrateAllE cal l.fields
+    else .ok (l.fields.map (fun e => (e.1, e.2, none)))
+
+def readE (s : State) (layer : Nat) (t : Option Name) (calibrate : Bool) : Except Err ReadOut :=
+  match s.layers[layer]? with
+  | none => .error .index
+  | some l => readLayerE s.cal l t calibrate
+
+def stepE (s : State) : Op → Res State
+  | .add n ds c => addE s n ds c
+  | .remove ns => removeE s ns
+  | .rename m => renameE s m
+  | .get layer t c =>
+    match readE s layer t c with
+    | .ok _ => .ok s
+    | .error e => .fail e s
+  | .callerEdit => .ok s
+
+/-- a history in which calls may fail: it goes on from whatever the failing call left -/
+def runE (s : State) : List Op → State × List (Option Err)
+  | [] => (s, [])
+  | op :: ops =>
+    let r := stepE s op
+    let rest := runE r.state ops
+    (rest.1, r.err :: rest.2)
+
 /-! ## specification: a plain dictionary -/
 
 /-- per-layer data identities and the calibration identity of one element -/
@@ -241,9 +407,9 @@ namespace Spec
 
 def shape (a : Spec) : List Nat := shapeOf a.srr a.shapes
 
-/-- a new name with its data and calibration -/
-def add (a : Spec) (n : Name) (ds : List Nat) (c : Nat) : Option Spec :=
-  if n ∉ keys a.map ∧ ds.length = a.shapes.length then some { a with map := a.map ++ [(n, (ds, c))] }
+/-- a new name with its data (one array per layer, each of its layer's shape) and calibration -/
+def add (a : Spec) (n : Name) (ds : List ArrIn) (c : Nat) : Option Spec :=
+  if n ∉ keys a.map ∧ ds.map (·.1) = a.shapes then some { a with map := a.map ++ [(n, (ds.map (·.2), c))] }
   else none
 
 /-- distinct present names disappear, everything else stays -/
@@ -367,5 +533,407 @@ instance (s : State) : Decidable (Inv s) := by
     decidable_of_iff ((∀ n ∈ keys s.cal, n ∈ s.elements) ∧ (∀ n ∈ s.elements, n ∈ keys s.cal))
       ⟨fun h n => ⟨h.1 n, h.2 n⟩, fun h => ⟨fun n => (h n).1, fun n => (h n).2⟩⟩
   infer_instance
+
+/-! ## object level: identities, references, allocation
+
+Everything above speaks of *contents*.  Here every array column, every `Calibration`, `Config`, offsets
+array and calibration dict is an object with an identity (its position in the heap; nothing is freed),
+the laser holds references, and every call says what it allocates, copies, aliases and writes — as read
+from `laser.py` / `srr/srr.py` / `calibration.py` / `io/npz.py`:
+
+* constructor: `self.data = data` (the caller's arrays, by reference; `SRRLaser`: a new list of the same
+  arrays), a new dict with one new default `Calibration` per element, `update(copy.deepcopy(calibration))`
+  (new objects, an object given twice copied once), `copy.copy(config)` (a new object with the same
+  attribute values: the `_subpixel_offsets` array of an `SRRConfig` is shared) or a new default config;
+* `add`: new memory per layer (all old fields and the new one copied in), the given `Calibration` stored
+  *by reference* (a new default one if `None`) in the same dict object;
+* `remove`: `drop_fields` builds new memory per layer; the dict object is popped in place;
+* `rename`: `rename_fields` returns a *view* (same memory, new names); a new dict object is built;
+* `get`: `Laser.get(element)` returns a view of the stored memory, also after calibration by an identity
+  calibration (`Calibration.calibrate` returns its argument); a non-identity calibration computes a new
+  array; all-element reads and every `SRRLaser.get(layer=…)` work on a copy (calibrated in place);
+* anyone holding a reference can change an object (`setCal`, `setCfg`, `setDict`, `writeCell`, …).
+-/
+
+/-- a `Config` object: a token for its scalar attributes and, for `SRRConfig`, the identity of the
+`_subpixel_offsets` array it holds -/
+structure Cfg where
+  scal : Nat
+  offs : Option Nat
+  deriving Repr, DecidableEq
+
+/-- a dict `key ↦ identity of a Calibration object` (same representation as `Dict`) -/
+abbrev IdDict := List (Name × Nat)
+
+/-- a structured array object: its shape and, per field, the identity of the memory cell (column) that
+field reads and writes.  Two arrays share memory iff they have a cell in common. -/
+abbrev Arr := Layer
+
+/-- the memory: identity = position; nothing is ever freed -/
+structure Heap where
+  /-- one cell per array column: its content token -/
+  cells : List Nat
+  /-- `Calibration` objects: content token (0 = the default `Calibration()`, the only identity calibration used) -/
+  cals : List Nat
+  cfgs : List Cfg
+  /-- `_subpixel_offsets` arrays: content token -/
+  offs : List Nat
+  dicts : List IdDict
+  deriving Repr, DecidableEq
+
+/-- the laser object: references only -/
+structure Obj where
+  srr : Bool
+  data : List Arr
+  cal : Nat
+  cfg : Nat
+  deriving Repr, DecidableEq
+
+structure World where
+  heap : Heap
+  laser : Obj
+  deriving Repr, DecidableEq
+
+def Heap.cell (h : Heap) (i : Nat) : Nat := (h.cells[i]?).getD 0
+def Heap.calOf (h : Heap) (i : Nat) : Nat := (h.cals[i]?).getD 0
+def Heap.cfgOf (h : Heap) (i : Nat) : Cfg := (h.cfgs[i]?).getD ⟨0, none⟩
+def Heap.offsOf (h : Heap) (i : Nat) : Nat := (h.offs[i]?).getD 0
+def Heap.dict (h : Heap) (i : Nat) : IdDict := (h.dicts[i]?).getD []
+
+/-- follow the references of a name-keyed list -/
+def mapV (f : Nat → Nat) (l : List (Name × Nat)) : List (Name × Nat) := l.map (fun e => (e.1, f e.2))
+
+def viewLayer (h : Heap) (a : Arr) : Layer := { shape := a.shape, fields := mapV h.cell a.fields }
+def viewDict (h : Heap) (d : IdDict) : Dict := mapV h.calOf d
+
+/-- what the laser stores, as contents: the state of the content level -/
+def view (w : World) : State :=
+  { srr := w.laser.srr, layers := w.laser.data.map (viewLayer w.heap),
+    cal := viewDict w.heap (w.heap.dict w.laser.cal), cfg := (w.heap.cfgOf w.laser.cfg).scal }
+
+/-- content of the offsets array the laser's config holds (`SRRConfig` only) -/
+def cfgOffsets (w : World) : Option Nat := (w.heap.cfgOf w.laser.cfg).offs.map w.heap.offsOf
+
+/-! ### allocation -/
+
+/-- new memory for an array with the given column contents -/
+def Heap.allocCells (h : Heap) (cs : List Nat) : List Nat × Heap :=
+  (List.range' h.cells.length cs.length, { h with cells := h.cells ++ cs })
+
+def Heap.allocCal (h : Heap) (c : Nat) : Nat × Heap := (h.cals.length, { h with cals := h.cals ++ [c] })
+def Heap.allocCfg (h : Heap) (c : Cfg) : Nat × Heap := (h.cfgs.length, { h with cfgs := h.cfgs ++ [c] })
+def Heap.allocOffs (h : Heap) (c : Nat) : Nat × Heap := (h.offs.length, { h with offs := h.offs ++ [c] })
+def Heap.allocDict (h : Heap) (d : IdDict) : Nat × Heap := (h.dicts.length, { h with dicts := h.dicts ++ [d] })
+
+/-- a packed copy of a structured array (`np.empty` + assignment field by field, `.copy()`): new cells
+holding what the fields hold now -/
+def Heap.copyArr (h : Heap) (a : Arr) : Arr × Heap :=
+  let r := h.allocCells (a.fields.map (fun e => h.cell e.2))
+  ({ shape := a.shape, fields := List.zip (keys a.fields) r.1 }, r.2)
+
+/-! ### constructors -/
+
+/-- `{name: Calibration() for name in self.elements}`: a new default object per element -/
+def allocDefaults : List Name → IdDict → Heap → IdDict × Heap
+  | [], d, h => (d, h)
+  | n :: ns, d, h => allocDefaults ns (dictSet d n h.cals.length) (h.allocCal 0).2
+
+/-- `copy.deepcopy(calibration)`, value by value: a new `Calibration` with the same content; an object
+met before (the memo of `deepcopy`) is not copied again -/
+def deepcopyEntries : IdDict → List (Nat × Nat) → IdDict → Heap → IdDict × Heap
+  | [], _, out, h => (out, h)
+  | e :: r, memo, out, h =>
+    match memo.lookup e.2 with
+    | some id => deepcopyEntries r memo (out ++ [(e.1, id)]) h
+    | none =>
+      deepcopyEntries r ((e.2, h.cals.length) :: memo) (out ++ [(e.1, h.cals.length)]) (h.allocCal (h.calOf e.2)).2
+
+/-- the calibration part of the constructors: `{name: Calibration() for name in self.elements}` and
+`.update(copy.deepcopy(calibration))` — the entries of the laser's (new) dict -/
+def conCal (h : Heap) (els : List Name) (given : Option Nat) : IdDict × Heap :=
+  let r0 := allocDefaults els [] h
+  match given with
+  | none => r0
+  | some g =>
+    let cp := deepcopyEntries (r0.2.dict g) [] [] r0.2
+    (cp.1.foldl (fun acc e => dictSet acc e.1 e.2) r0.1, cp.2)
+
+/-- the configuration part: `copy.copy(config)` (a new object with the same attribute values: the offsets
+array of an `SRRConfig` is shared), or a new default `Config()` / `SRRConfig()` -/
+def conCfg (h : Heap) (srr : Bool) (config : Option Nat) : Nat × Heap :=
+  match config with
+  | some k => h.allocCfg (h.cfgOf k)
+  | none =>
+    if srr then
+      let o := h.allocOffs 0
+      o.2.allocCfg ⟨0, some o.1⟩
+    else h.allocCfg ⟨0, none⟩
+
+/-- `Laser(data, calibration, config)` / `SRRLaser(data, calibration, config)`; `given` and `config` are
+the identities of the caller's dict and config object.  `none` = the constructor raises
+(`assert len(data) > 1`) or the call is not expressible (`Laser` takes one array). -/
+def hConstruct (h : Heap) (srr : Bool) (data : List Arr) (given : Option Nat) (config : Option Nat) :
+    Option World :=
+  if (srr && data.length ≤ 1) || (!srr && data.length != 1) then none
+  else
+    let r1 := conCal h (elementsOf data) given
+    let r2 := r1.2.allocDict r1.1
+    let r3 := conCfg r2.2 srr config
+    some { heap := r3.2, laser := { srr := srr, data := data, cal := r2.1, cfg := r3.1 } }
+
+def copyArrs : List Arr → Heap → List Arr × Heap
+  | [], h => ([], h)
+  | a :: as, h =>
+    let r := h.copyArr a
+    let t := copyArrs as r.2
+    (r.1 :: t.1, t.2)
+
+/-- `unpack_calibration`: a new `Calibration` object per saved entry -/
+def freshEntries : IdDict → IdDict → Heap → IdDict × Heap
+  | [], out, h => (out, h)
+  | e :: r, out, h => freshEntries r (out ++ [(e.1, h.cals.length)]) (h.allocCal (h.calOf e.2)).2
+
+/-- `Config.from_array` / `SRRConfig.from_array`: a new config (with a new offsets array) holding the saved values -/
+def loadCfg (h : Heap) (c0 : Cfg) : Nat × Heap :=
+  match c0.offs with
+  | some o =>
+    let o' := h.allocOffs (h.offsOf o)
+    o'.2.allocCfg ⟨c0.scal, some o'.1⟩
+  | none => h.allocCfg ⟨c0.scal, none⟩
+
+/-- `npz.load(npz.save(laser))`: the loader builds new arrays, a new dict of new `Calibration` objects and
+a new config from the file and hands them to the constructor (which copies dict and config once more) -/
+def hRoundTrip (w : World) : Option World :=
+  let d := copyArrs w.laser.data w.heap
+  let e := freshEntries (d.2.dict w.laser.cal) [] d.2
+  let g := e.2.allocDict e.1
+  let k := loadCfg g.2 (g.2.cfgOf w.laser.cfg)
+  hConstruct k.2 w.laser.srr d.1 (some g.1) (some k.1)
+
+/-! ### the calls -/
+
+/-- one layer of `add`: the caller's column is appended (checks as in `Layer.addE`) and the whole array
+is copied into new memory -/
+def Arr.addE (h : Heap) (a : Arr) (n : Name) (x : ArrIn) : Except Err (Arr × Heap) :=
+  match Layer.addE a n x with
+  | .error e => .error e
+  | .ok a' => .ok (h.copyArr a')
+
+def hAddLayers (n : Name) : List Arr → List ArrIn → Heap → Except (Err × List Arr × Heap) (List Arr × Heap)
+  | [], _, h => .ok ([], h)
+  | a :: as, [], h => .error (.index, a :: as, h)
+  | a :: as, x :: xs, h =>
+    match Arr.addE h a n x with
+    | .error e => .error (e, a :: as, h)
+    | .ok (a', h1) =>
+      match hAddLayers n as xs h1 with
+      | .ok (r, h2) => .ok (a' :: r, h2)
+      | .error (e, r, h2) => .error (e, a' :: r, h2)
+
+/-- `if calibration is None: calibration = Calibration()`, then `self.calibration[element] = calibration`:
+the object given is stored itself, in the dict object the laser already has -/
+def Heap.storeCal (h : Heap) (dictId : Nat) (n : Name) (cal : Option Nat) : Heap :=
+  let r : Nat × Heap := match cal with
+    | none => h.allocCal 0
+    | some k => (k, h)
+  { r.2 with dicts := r.2.dicts.set dictId (dictSet (r.2.dict dictId) n r.1) }
+
+/-- `add(element, data, calibration)`; `xs`: shape and cell of the caller's array per layer, `cal`: the
+identity of the caller's `Calibration` or `None` -/
+def hAdd (w : World) (n : Name) (xs : List ArrIn) (cal : Option Nat) : Res World :=
+  if xs.length ≠ w.laser.data.length then .fail .assertion w
+  else
+    match hAddLayers n w.laser.data xs w.heap with
+    | .error (e, ls, h) => .fail e { heap := h, laser := { w.laser with data := ls } }
+    | .ok (ls, h) => .ok { heap := h.storeCal w.laser.cal n cal, laser := { w.laser with data := ls } }
+
+def hDropLayers (ns : List Name) : List Arr → Heap → List Arr × Heap
+  | [], h => ([], h)
+  | a :: as, h =>
+    let r := h.copyArr (a.drop ns)
+    let t := hDropLayers ns as r.2
+    (r.1 :: t.1, t.2)
+
+def hRemove (w : World) (ns : List Name) : Res World :=
+  let r := hDropLayers ns w.laser.data w.heap
+  let p := popAllE (r.2.dict w.laser.cal) ns
+  let w' : World := { heap := { r.2 with dicts := r.2.dicts.set w.laser.cal p.1 },
+                      laser := { w.laser with data := r.1 } }
+  match p.2 with
+  | none => .ok w'
+  | some e => .fail e w'
+
+def hRename (w : World) (m : NameMap) : Res World :=
+  match renameLayersE m w.laser.data with
+  | .error (e, ls) => .fail e { w with laser := { w.laser with data := ls } }
+  | .ok ls =>
+    let r := w.heap.allocDict (rebuildDict (w.heap.dict w.laser.cal) m)
+    .ok { heap := r.2, laser := { w.laser with data := ls, cal := r.1 } }
+
+/-- an opaque token for "content `d` calibrated by calibration content `c`" -/
+def calTok (d c : Nat) : Nat := (d + c) * (d + c + 1) / 2 + c
+
+/-- what `get` returns: the memory cells the returned array occupies (field by field; one entry for a
+single element) and what it holds -/
+structure RRes where
+  cells : List (Name × Nat)
+  items : ReadOut
+  deriving Repr, DecidableEq
+
+/-- `for name in data.dtype.names: data[name] = self.calibration[name].calibrate(data[name])` on the copy:
+writes into the cells of the copy (an identity calibration assigns the column to itself) -/
+def calibrateCells (d : IdDict) : List (Name × Nat) → Heap → Except Err (ReadOut × Heap)
+  | [], h => .ok ([], h)
+  | e :: r, h =>
+    match get? d e.1 with
+    | none => .error .key
+    | some k =>
+      let c := h.calOf k
+      let v := h.cell e.2
+      let h1 : Heap := if c = 0 then h else { h with cells := h.cells.set e.2 (calTok v c) }
+      match calibrateCells d r h1 with
+      | .ok (out, h2) => .ok ((e.1, v, some c) :: out, h2)
+      | .error x => .error x
+
+/-- `get(element, calibrate, layer=…)` (extent trimming takes a sub-view of whatever array is at hand and
+changes nothing here) -/
+def hGet (w : World) (layer : Nat) (t : Option Name) (calibrate : Bool) : Except Err (RRes × Heap) :=
+  match w.laser.data[layer]? with
+  | none => .error .index
+  | some a =>
+    let d := w.heap.dict w.laser.cal
+    match t with
+    | some n =>
+      -- `Laser`: `self.data[element]`, a view; `SRRLaser`: `self.data[layer].copy()`, then `data[element]`
+      let r : Arr × Heap := if w.laser.srr then w.heap.copyArr a else (a, w.heap)
+      match get? r.1.fields n with
+      | none => .error .value
+      | some i =>
+        if calibrate then
+          match get? d n with
+          | none => .error .key
+          | some k =>
+            let c := r.2.calOf k
+            if c = 0 then .ok ({ cells := [(n, i)], items := [(n, r.2.cell i, some c)] }, r.2)
+            else .ok ({ cells := [(n, r.2.cells.length)], items := [(n, r.2.cell i, some c)] },
+                      (r.2.allocCells [calTok (r.2.cell i) c]).2)
+        else .ok ({ cells := [(n, i)], items := [(n, r.2.cell i, none)] }, r.2)
+    | none =>
+      let r := w.heap.copyArr a
+      if calibrate then
+        match calibrateCells d r.1.fields r.2 with
+        | .error e => .error e
+        | .ok (out, h2) => .ok ({ cells := r.1.fields, items := out }, h2)
+      else .ok ({ cells := r.1.fields, items := r.1.fields.map (fun e => (e.1, r.2.cell e.2, none)) }, r.2)
+
+/-- every cell of the returned array was allocated by the call (`h`: the memory before the call) -/
+def RRes.allNew (r : RRes) (h : Heap) : Prop := ∀ e ∈ r.cells, h.cells.length ≤ e.2
+
+/-- when `get` hands out stored memory: a single element of a `Laser` (not an `SRRLaser`), read
+uncalibrated or calibrated by an identity calibration -/
+def returnsView (w : World) (t : Option Name) (calibrate : Bool) : Prop :=
+  w.laser.srr = false ∧ ∃ n, t = some n ∧
+    (calibrate = false ∨ ∃ k, get? (w.heap.dict w.laser.cal) n = some k ∧ w.heap.calOf k = 0)
+
+inductive HOp
+  | add (n : Name) (xs : List ArrIn) (cal : Option Nat)
+  | remove (ns : List Name)
+  | rename (m : NameMap)
+  | get (layer : Nat) (t : Option Name) (calibrate : Bool)
+  /-- a holder of `Calibration` object `k` changes it (attributes, or its arrays in place) -/
+  | setCal (k : Nat) (c : Nat)
+  /-- a holder of config object `k` assigns its scalar attributes -/
+  | setCfg (k : Nat) (c : Nat)
+  /-- `cfg.subpixel_offsets = …` on config `k`: a new offsets array is bound -/
+  | setOffsets (k : Nat) (c : Nat)
+  /-- an in-place write into offsets array `o` -/
+  | writeOffsets (o : Nat) (c : Nat)
+  /-- a holder of dict object `k` deletes / inserts keys -/
+  | setDict (k : Nat) (d : IdDict)
+  /-- an in-place write into memory cell `i` — through an array the caller holds or through a returned view -/
+  | writeCell (i : Nat) (c : Nat)
+  deriving Repr, DecidableEq
+
+def hstep (w : World) : HOp → Res World
+  | .add n xs cal => hAdd w n xs cal
+  | .remove ns => hRemove w ns
+  | .rename m => hRename w m
+  | .get layer t c =>
+    match hGet w layer t c with
+    | .ok (_, h) => .ok { w with heap := h }
+    | .error e => .fail e w
+  | .setCal k c => .ok { w with heap := { w.heap with cals := w.heap.cals.set k c } }
+  | .setCfg k c => .ok { w with heap := { w.heap with cfgs := w.heap.cfgs.set k { w.heap.cfgOf k with scal := c } } }
+  | .setOffsets k c =>
+    let o := w.heap.allocOffs c
+    .ok { w with heap := { o.2 with cfgs := o.2.cfgs.set k { o.2.cfgOf k with offs := some o.1 } } }
+  | .writeOffsets o c => .ok { w with heap := { w.heap with offs := w.heap.offs.set o c } }
+  | .setDict k d => .ok { w with heap := { w.heap with dicts := w.heap.dicts.set k d } }
+  | .writeCell i c => .ok { w with heap := { w.heap with cells := w.heap.cells.set i c } }
+
+/-- a history of successful calls -/
+def hrun (w : World) : List HOp → Option World
+  | [] => some w
+  | op :: ops =>
+    match hstep w op with
+    | .ok w' => hrun w' ops
+    | .fail _ _ => none
+
+/-- the content-level operation an object-level call stands for, given the memory at the time of the call;
+edits of objects by their holders have no counterpart (`callerEdit`, which does nothing) -/
+def absOp (h : Heap) : HOp → Op
+  | .add n xs cal => .add n (xs.map (fun x => (x.1, h.cell x.2))) ((cal.map h.calOf).getD 0)
+  | .remove ns => .remove ns
+  | .rename m => .rename m
+  | .get layer t c => .get layer t c
+  | _ => .callerEdit
+
+/-- the calls on the laser (as opposed to edits of objects by whoever holds them) -/
+def HOp.isCall : HOp → Bool
+  | .add .. => true
+  | .remove .. => true
+  | .rename .. => true
+  | .get .. => true
+  | _ => false
+
+/-- the references the laser holds point at existing objects -/
+def Valid (w : World) : Prop :=
+  w.laser.cal < w.heap.dicts.length ∧ (∀ e ∈ w.heap.dict w.laser.cal, e.2 < w.heap.cals.length) ∧
+  w.laser.cfg < w.heap.cfgs.length ∧ (∀ a ∈ w.laser.data, ∀ e ∈ a.fields, e.2 < w.heap.cells.length)
+
+/-- the arguments of a call are existing objects -/
+def ArgsOK (h : Heap) : HOp → Prop
+  | .add _ xs cal => (∀ x ∈ xs, x.2 < h.cells.length) ∧ (∀ k, cal = some k → k < h.cals.length)
+  | _ => True
+
+/-- objects somebody else holds: Calibration, dict and config objects by identity -/
+structure Foreign where
+  cals : List Nat
+  dicts : List Nat
+  cfgs : List Nat
+  deriving Repr, DecidableEq
+
+/-- the laser references none of the foreign objects (and they exist) -/
+def Sep (F : Foreign) (w : World) : Prop :=
+  (∀ k ∈ F.cals, k < w.heap.cals.length) ∧ (∀ k ∈ F.dicts, k < w.heap.dicts.length) ∧
+  (∀ k ∈ F.cfgs, k < w.heap.cfgs.length) ∧
+  w.laser.cal ∉ F.dicts ∧ (∀ e ∈ w.heap.dict w.laser.cal, e.2 ∉ F.cals) ∧ w.laser.cfg ∉ F.cfgs
+
+/-- the calls of a history in which the holders of the foreign objects edit them at will, the laser is
+used through its methods, and no foreign `Calibration` is handed to `add` -/
+def Allowed (F : Foreign) (h : Heap) : HOp → Prop
+  | .add _ xs cal => (∀ x ∈ xs, x.2 < h.cells.length) ∧ (∀ k, cal = some k → k < h.cals.length ∧ k ∉ F.cals)
+  | .remove _ => True
+  | .rename _ => True
+  | .get _ _ _ => True
+  | .setCal k _ => k ∈ F.cals
+  | .setCfg k _ => k ∈ F.cfgs
+  | .setOffsets k _ => k ∈ F.cfgs
+  | .writeOffsets _ _ => True
+  | .setDict k _ => k ∈ F.dicts
+  | .writeCell _ _ => False
+
+instance (w : World) : Decidable (Valid w) := by unfold Valid; infer_instance
+instance (F : Foreign) (w : World) : Decidable (Sep F w) := by unfold Sep; infer_instance
 
 end Pew.LaserEdit
